@@ -323,7 +323,7 @@ def max_n(alg, k, big=False):
     if alg == "ilp":
         return 8 if k <= 3 else 7
     if alg == "ckk":
-        return {1: 10, 2: 12, 3: 10, 4: 9, 5: 8, 6: 7, 7: 6}.get(k, 3)
+        return {1: 10, 2: 12, 3: 10, 4: 8, 5: 7, 6: 6, 7: 6}.get(k, 3)
     if alg in ("snp", "rnp"):
         return {1: 10, 2: 12, 3: 10, 4: 9, 5: 8, 6: 7, 7: 6, 8: 6, 9: 6}.get(k, 5)
     return 8
